@@ -43,11 +43,24 @@ type protoSnap struct {
 	nreg    uint8
 	nested  []*protoSnap
 	nlocals int
+	// debug information (read by tracebacks, debug.getinfo/getlocal): also part of the shared prototype
+	locals  []DbgLocalInfo
+	calls   []DbgCall
+	upnames []string
+	source  string
+	ldef    int
+	lastdef int
 }
 
 func snapProto(p *FunctionProto) *protoSnap {
 	s := &protoSnap{code: append([]uint32{}, p.Code...), consts: append([]LValue{}, p.Constants...), strs: append([]string{}, p.stringConstants...),
 		lines: append([]int{}, p.DbgSourcePositions...), nup: p.NumUpvalues, nparam: p.NumParameters, vararg: p.IsVarArg, nreg: p.NumUsedRegisters, nlocals: len(p.DbgLocals)}
+	for _, l := range p.DbgLocals {
+		s.locals = append(s.locals, *l)
+	}
+	s.calls = append([]DbgCall{}, p.DbgCalls...)
+	s.upnames = append([]string{}, p.DbgUpvalues...)
+	s.source, s.ldef, s.lastdef = p.SourceName, p.LineDefined, p.LastLineDefined
 	for _, c := range p.FunctionPrototypes {
 		s.nested = append(s.nested, snapProto(c))
 	}
@@ -79,6 +92,24 @@ func sameProto(p *FunctionProto, s *protoSnap) bool {
 			return false
 		}
 	}
+	if len(p.DbgCalls) != len(s.calls) || len(p.DbgUpvalues) != len(s.upnames) || p.SourceName != s.source || p.LineDefined != s.ldef || p.LastLineDefined != s.lastdef {
+		return false
+	}
+	for i := range s.locals {
+		if *p.DbgLocals[i] != s.locals[i] {
+			return false
+		}
+	}
+	for i := range s.calls {
+		if p.DbgCalls[i] != s.calls[i] {
+			return false
+		}
+	}
+	for i := range s.upnames {
+		if p.DbgUpvalues[i] != s.upnames[i] {
+			return false
+		}
+	}
 	for i := range s.nested {
 		if !sameProto(p.FunctionPrototypes[i], s.nested[i]) {
 			return false
@@ -96,12 +127,17 @@ var c13Programs = []string{
 	`local co = coroutine.wrap(function(a) local b = coroutine.yield(a + 1); return a + b end); return co(x) + co(x)`,
 	// several non-local targets fed by one call (the compiler asks for a result-count context), nested in another
 	`local function f() return x, x + 1, x + 2 end; ga, gb, gc = f(function() gx, gy = f() end); local t = {}; t.a, t.b = f(); return ga + gb + gc + t.a + t.b`,
+	// tracebacks and debug queries through call sites whose callee has no name (fns[i]()), through named locals and
+	// upvalues: the debug information of the shared prototype is read, never written (round-7 seeded change
+	// C13-traceback-caches-name-in-proto)
+	`local fns = {function() return debug.traceback("m") end, function(a) local n = debug.getlocal(1, 1); return debug.getinfo(1, "n").name or n end}; local s = fns[1](); local w = fns[2](1); local ok, tb = xpcall(function() fns[2](2); error("e") end, debug.traceback); return #s + #tb + #w + x`,
+	`local u = x; local function named() return debug.traceback("t", 1) end; local function up() return debug.getupvalue(up, 1), u end; local s = named(); local t = {named}; local s2 = t[1](); up(); return #s + #s2 + u`,
 }
 
 // C13.footprint — executing a shared compiled prototype in two states never writes the prototype or
 // any package-level variable, and each state computes what it computes alone.
 //
-//verif:harness prop=C13 tier=quick bounds="7 program templates compiled once and run in 2 states with independent symbolic integer inputs (32-bit); sequential executions only (no goroutine schedules)"
+//verif:harness prop=C13 tier=quick bounds="9 program templates (incl. tracebacks, debug.getinfo/getlocal/getupvalue through unnamed and named call sites) compiled once and run in 2 states with independent symbolic integer inputs (32-bit); sequential executions only (no goroutine schedules)"
 //verif:assume sequential footprint argument: if no execution writes shared memory (prototype, package variables) then states sharing them cannot interfere through them; data races and channel delivery are outside this check
 func H_C13_footprint() {
 	k := VChoice(len(c13Programs))
@@ -111,7 +147,7 @@ func H_C13_footprint() {
 	VAssert(err == nil, "footprint: compiles")
 	snap := snapProto(proto)
 	run := func(x float64) (LValue, bool) {
-		L := newL(Options{}, BaseLibName, CoroutineLibName)
+		L := newL(Options{}, BaseLibName, CoroutineLibName, DebugLibName)
 		L.G.Global.RawSetString("x", LNumber(x))
 		L.Push(L.NewFunctionFromProto(proto))
 		if err := L.PCall(0, 1, nil); err != nil {
